@@ -371,7 +371,13 @@ def run_concrete(run, assignment):
 def _witness(run, ctx, res):
     """Validate the encoding: a model of the path condition, replayed on the real code with real
     bytes/ints (hooked modules in pass-through mode), must give the observed values."""
-    m = ENGINE.model()
+    # a fresh solver: the model then depends on this path's condition only, not on the worker's query history
+    ws = z3.Solver()
+    ws.set("timeout", ENGINE.timeout_ms)
+    ws.add(*ENGINE.pc)
+    if ws.check() != z3.sat:
+        raise Inconclusive("no model for the path condition in the witness solver")
+    m = ws.model()
     assignment = assignment_from_model(m)
     expected = [(lab, canon(v, m)) for lab, v in ctx.observed]
     exp_checks = [lab for lab, c, _ in ctx.checks]
